@@ -21,8 +21,8 @@ void verif_random_reset(uint32_t);
 
 const char *verif_property = "C09";
 const char *verif_class_names[] = { "three_pending_delete_nonhead", "duration_beyond_31bit_ms", "duration_beyond_32bit_ms", "duration_near_2_63", "duration_near_2_64",
-	"zero_duration", "early_wakeup", "clock_tick", "job_throttle_seen", "delete_from_callback", "query_pending", "query_after_fire", "many_pending", NULL };
-enum { K_NONHEAD, K_31, K_32, K_63, K_64, K_ZERO, K_EARLYWAKE, K_TICK, K_THROTTLE, K_DELCB, K_QPEND, K_QFIRED, K_MANY };
+	"zero_duration", "early_wakeup", "clock_tick", "job_throttle_seen", "delete_from_callback", "query_pending", "query_after_fire", "many_pending", "heap_profile", NULL };
+enum { K_NONHEAD, K_31, K_32, K_63, K_64, K_ZERO, K_EARLYWAKE, K_TICK, K_THROTTLE, K_DELCB, K_QPEND, K_QFIRED, K_MANY, K_HEAP };
 const char *verif_rule =
 	"case = clock behaviour (tick per read 0/1us/100us, early wake-ups) + a history of timer adds with durations from {0, 1 ns, sub-ms, ms-scale, 2^31-1 ms +-1, 2^32 ms +-1, 2^63 ns, 2^64-1 ns}, "
 	"deletes (any handle), expire_time_remaining / is_running queries and jobs, from outside the loop and from inside callbacks; up to 30 timers pending at once; "
@@ -100,15 +100,17 @@ static void hook(int n_ready, int timeout_ms)
 	} else vclock_advance(20000);
 }
 
+static bool heap_profile;	/* a third of the cases: many timers of comparable (ms-scale) durations, deletes aimed at pending ones - what orders the timer heap */
 static void add_timer(void)
 {
 	static const uint64_t MS = 1000000ULL;
 	uint64_t d; unsigned cls = vr_u8(&V) % 14, j = vr_u8(&V) % 3;
+	if (heap_profile) cls = 3;
 	switch (cls) {
 	case 0: d = 0; VCLASS(R, K_ZERO); break;
 	case 1: d = 1; break;
 	case 2: d = 1000 + vr_u16(&V) * 13ULL; break;			/* sub-ms */
-	case 3: case 4: case 5: d = (1 + vr_u8(&V) % 40) * MS + vr_u16(&V); break;	/* ms scale */
+	case 3: case 4: case 5: d = (1 + vr_u8(&V) % (heap_profile ? 120 : 40)) * MS + vr_u16(&V); break;	/* ms scale */
 	case 6: d = (200 + vr_u8(&V)) * MS; break;
 	case 7: d = ((uint64_t)INT32_MAX - 1 + j) * MS; break;		/* 2^31-1 ms +-1 */
 	case 8: d = ((uint64_t)UINT32_MAX - 1 + j) * MS; break;		/* 2^32 ms +-1 */
@@ -146,7 +148,9 @@ static void do_actions(int n)
 		vop(R, k, arg, 0);
 		if (k <= 6) { if (pending_count() < 30) add_timer(); }
 		else if (k <= 9 && !T.empty()) {	/* delete */
-			int id = arg % T.size(); mtimer &m = T[id];
+			int id = arg % T.size();
+			if (heap_profile && pending_count() > 0) { int k2 = arg % pending_count(); for (size_t i = 0; i < T.size(); i++) if (T[i].st == 0 && T[i].h && k2-- == 0) { id = (int)i; break; } }
+			mtimer &m = T[id];
 			if (!m.h) continue;
 			uint64_t head; earliest_due(&head);
 			bool nonhead = m.st == 0 && pending_count() >= 3 && m.due != head;
@@ -196,12 +200,33 @@ extern "C" int verif_case(const uint8_t *data, size_t size, struct verif_report 
 	verif_random_reset(vr_u8(&V));
 	tick_ns = (uint64_t[]){ 0, 0, 1000, 100000 }[vr_u8(&V) % 4];
 	early_wake = vr_bool(&V);
+	heap_profile = vr_u8(&V) % 3 == 0;
+	if (heap_profile) VCLASS(r, K_HEAP);
 	if (tick_ns) VCLASS(r, K_TICK);
 	vclock_enable(1); vclock_set_mono(1000000000ULL); vclock_set_real(1700000000ULL * 1000000000ULL); vclock_set_tick(tick_ns);
 	vepoll_enable(1, hook);
 	L = qb_loop_create();
 	if (!L) { r->inconclusive = 1; return 0; }
 	VLOG(r, "clock tick %llu ns, early wake-ups %d, budget %d\n", (unsigned long long)tick_ns, early_wake, budget_left);
+	if (heap_profile) {
+		/* a burst of adds, then deletes among the pending ones, then a few more adds: every shape of the timer heap, and deletes at every position of it */
+		int n = 6 + vr_u8(&V) % 19, m = 1 + vr_u8(&V) % 6, more = vr_u8(&V) % 4;
+		VLOG(r, "burst: %d adds, %d deletes of pending timers, %d more adds\n", n, m, more);
+		for (int i = 0; i < n && !r->fail; i++) add_timer();
+		for (int i = 0; i < m && !r->fail && pending_count() > 0; i++) {
+			int k2 = vr_u8(&V) % pending_count(), id = -1;
+			for (size_t j = 0; j < T.size(); j++) if (T[j].st == 0 && T[j].h && k2-- == 0) { id = (int)j; break; }
+			if (id < 0) break;
+			uint64_t head; earliest_due(&head);
+			if (pending_count() >= 3 && T[id].due != head) { VCLASS(r, K_NONHEAD); nontriv = true; }
+			int rc = qb_loop_timer_del(L, T[id].h);
+			VLOG(r, "      del timer %d (pending) -> %d\n", id, rc);
+			if (rc != 0) { VFAIL(r, "timer-del-refused", "delete of pending timer %d returned %d", id, rc); break; }
+			T[id].st = 2;
+			vop(r, 99, id, 0);
+		}
+		for (int i = 0; i < more && !r->fail; i++) add_timer();
+	}
 	do_actions(2 + vr_u8(&V) % 8);
 	for (int round = 0; round < 1000 && !r->fail; round++) {
 		if (round == 999) { budget_left = 0; winding_down = true; }
